@@ -25,10 +25,36 @@ impl Out {
 }
 
 
+/// A watchdog for a child process: while armed, the child is killed when it makes no progress for `limit_ms`
+/// (an implementation that loops forever is observed as the death of the child, i.e. as `ABORT` of the call in flight).
+pub struct Watchdog { last: std::sync::Arc<std::sync::atomic::AtomicU64>, armed: std::sync::Arc<std::sync::atomic::AtomicBool>, stop: std::sync::Arc<std::sync::atomic::AtomicBool>, pub fired: std::sync::Arc<std::sync::atomic::AtomicBool> }
+fn now_ms() -> u64 { std::time::SystemTime::now().duration_since(std::time::UNIX_EPOCH).unwrap().as_millis() as u64 }
+impl Watchdog {
+    pub fn new(pid: u32, limit_ms: u64) -> Watchdog {
+        use std::sync::{Arc, atomic::{AtomicBool, AtomicU64, Ordering}};
+        let w = Watchdog { last: Arc::new(AtomicU64::new(now_ms())), armed: Arc::new(AtomicBool::new(false)), stop: Arc::new(AtomicBool::new(false)), fired: Arc::new(AtomicBool::new(false)) };
+        let (last, armed, stop, fired) = (w.last.clone(), w.armed.clone(), w.stop.clone(), w.fired.clone());
+        std::thread::spawn(move || { loop {
+            std::thread::sleep(std::time::Duration::from_millis(250));
+            if stop.load(Ordering::Relaxed) { break; }
+            if armed.load(Ordering::Relaxed) && now_ms().saturating_sub(last.load(Ordering::Relaxed)) > limit_ms {
+                fired.store(true, Ordering::Relaxed);
+                let _ = std::process::Command::new("kill").arg("-9").arg(pid.to_string()).status();
+                break;
+            } } });
+        w
+    }
+    pub fn arm(&self) { self.last.store(now_ms(), std::sync::atomic::Ordering::Relaxed); self.armed.store(true, std::sync::atomic::Ordering::Relaxed); }
+    pub fn tick(&self) { self.last.store(now_ms(), std::sync::atomic::Ordering::Relaxed); }
+    pub fn disarm(&self) { self.armed.store(false, std::sync::atomic::Ordering::Relaxed); }
+}
+impl Drop for Watchdog { fn drop(&mut self) { self.stop.store(true, std::sync::atomic::Ordering::Relaxed); } }
+pub const HANG_LIMIT_MS: u64 = 30_000;
+
 /// Crash isolation for components whose implementation may corrupt memory or abort: case blocks are
 /// executed in a child process (this binary, `<comp>-child`), which prints `OB <observation>` after
 /// every call and `DONE` after a block; a dead child yields `<id> ABORT` for the call in flight.
-pub struct Isolated { comp: String, child: Option<(std::process::Child, std::io::BufReader<std::process::ChildStdout>)> }
+pub struct Isolated { comp: String, child: Option<(std::process::Child, std::io::BufReader<std::process::ChildStdout>, Watchdog)> }
 impl Isolated {
     pub fn new(comp: &str) -> Isolated { Isolated { comp: comp.to_string(), child: None } }
     pub fn run_block(&mut self, id: usize, lines: &[String], expected: usize) -> Vec<String> {
@@ -38,23 +64,26 @@ impl Isolated {
             let mut p = std::process::Command::new(exe).arg(format!("{}-child", self.comp))
                 .stdin(std::process::Stdio::piped()).stdout(std::process::Stdio::piped()).stderr(std::process::Stdio::null()).spawn().unwrap();
             let rd = std::io::BufReader::new(p.stdout.take().unwrap());
-            self.child = Some((p, rd));
+            let wd = Watchdog::new(p.id(), HANG_LIMIT_MS);
+            self.child = Some((p, rd, wd));
         }
         let mut obs = vec![];
-        let (p, rd) = self.child.as_mut().unwrap();
+        let (p, rd, wd) = self.child.as_mut().unwrap();
+        wd.arm();
         let mut dead = false;
         { let si = p.stdin.as_mut().unwrap(); for l in lines { if writeln!(si, "{}", l).is_err() { dead = true; break; } } let _ = si.flush(); }
         while !dead {
             let mut l = String::new();
             match rd.read_line(&mut l) {
                 Ok(0) | Err(_) => dead = true,
-                Ok(_) => { let l = l.trim_end(); if l == "DONE" { break; } else if let Some(o) = l.strip_prefix("OB ") { obs.push(o.to_string()); } }
+                Ok(_) => { wd.tick(); let l = l.trim_end(); if l == "DONE" { break; } else if let Some(o) = l.strip_prefix("OB ") { obs.push(o.to_string()); } }
             }
         }
+        wd.disarm();
         if dead {
             if obs.len() < expected { obs.push(format!("{} ABORT", id)); }
             while obs.len() < expected { obs.push(format!("{} SKIPPED", id)); }
-            if let Some((mut p, _)) = self.child.take() { let _ = p.kill(); let _ = p.wait(); }
+            if let Some((mut p, _, _)) = self.child.take() { let _ = p.kill(); let _ = p.wait(); }
         }
         obs
     }
@@ -63,6 +92,10 @@ impl Isolated {
 pub struct Args { pub seed: u64, pub tier: String, pub out: String, pub replay: Option<String>, pub n: Option<u64>, pub corpus: Option<String> }
 
 fn main() {
+    // a run that takes absurdly long (an implementation or a tool that loops for ever) ends with an error instead of stalling the check
+    { let tier_thorough = std::env::args().any(|a| a == "thorough"); let limit: u64 = std::env::var("VERIF_HARNESS_DEADLINE_S").ok().and_then(|x| x.parse().ok()).unwrap_or(if tier_thorough { 3000 } else { 600 });
+      std::thread::spawn(move || { std::thread::sleep(std::time::Duration::from_secs(limit)); eprintln!("harness deadline of {} s exceeded (something loops for ever?)", limit); std::process::exit(3); }); }
+
     let argv: Vec<String> = std::env::args().collect();
     if argv.len() < 2 { eprintln!("usage: sfv_harness <component> --seed N --tier quick|thorough --out DIR [--replay FILE]"); std::process::exit(2); }
     let comp = argv[1].clone();
